@@ -361,7 +361,8 @@ def _run_drop(spec, rec, res):
     import verif_probe
     st = _S['state']
     st.update(n=0, k=None, crashes=0)
-    env = jedi.get_default_environment()
+    from jedi.api.environment import get_cached_default_environment
+    env = get_cached_default_environment()
     live = []
     worst = 0
     for i in range(spec['count']):
